@@ -139,6 +139,13 @@ def run(ctx, rep):
                             oi, on = tb.e(on["e"])
                         if on["k"] == "Var" and on.get("name") == "other":
                             copied.update(fields)
+        if uses_validate_fields:
+            # the field comparison lies on every path through validate_other (no shortcut returns before it)
+            bvo = cg.body(vo)
+            vfc = [bb for bb, t, cal, c in bvo.calls() if cal == vf]
+            if not (vfc and bvo.all_paths_pass(0, vfc, to=bvo.return_blocks())):
+                uses_validate_fields = False
+                rep.bad("R15.1", "R15.1|%s|compare_on_every_path" % name, "%s::validate_other can return without having compared the fields (a path bypasses validate_fields)" % name, vo)
         for fld in fields:
             if (s, fld) in EXEMPT:
                 rep.ok("R15.1", "R15.1|%s.%s" % (name, fld), "exempt: " + EXEMPT[(s, fld)], vo)
